@@ -14,7 +14,7 @@ REGISTRY = {
         claim=(
             "Structural clauses only (static, all call sites / all CFG paths of the current tree): Fs confinement (exact who-may-call rule over resolved callees), "
             "probe-order table of find_import vs the documented order, no suffix-replacing candidate construction, for_import/load-path must-reach rules, "
-            "plain-CSS classification and syntax-by-extension tables, and every key used on the import cache / files_seen is the path find_import returned (the cache cannot bypass the search). Not a statement about search results on concrete directory trees."
+            "plain-CSS classification and syntax-by-extension tables, and every key used on the import cache / files_seen is the path find_import returned (the cache cannot bypass the search), and once an explicit .sass/.scss/.css extension is recognised no path leads on to the extension-adding probes. Not a statement about search results on concrete directory trees."
         ),
         explanation=(
             "Static analysis of the type-checked program (MIR with resolved callees) of /repo's current tree. Decided clauses: "
@@ -122,7 +122,7 @@ REGISTRY["C17"] = dict(
     technique="static analysis: must-depend guard facts at every construction of MediaQueryMergeResult::Empty/Unrepresentable; arm-action table extraction of merge_media_queries and visit_media_rule",
     claim=(
         "Decision-structure clauses: every Empty result of MediaQuery::merge is control-dependent on this_type == other_type, on exactly one query being negated and on the subset test; "
-        "double negation with different types is Unrepresentable; merge_media_queries maps Empty/Unrepresentable/Success to skip/None/push over the cartesian product; "
+        "double negation with different types is Unrepresentable; merge_media_queries maps Empty/Unrepresentable/Success to skip/None/push over the cartesian product; a merged rule passes an enclosing @media only if all of its queries are merge sources (Iterator::all); "
         "visit_media_rule drops an empty intersection before creating a node and keeps unmergeable queries nested. (c) the outcome category (Empty / Unrepresentable / Success) of merge, extracted as predicate valuations per result site, equals a transliteration of dart-sass's merge on all 4608 combinations of conjunction, modifier, type (none/all/two concrete) and subset relations. NOT decided: which modifier/type/conditions a Success carries."
     ),
     explanation="Clauses of DESIGN.md §3 C17 on MIR facts of the current tree. NOT decided: that the merged query is the logical intersection for all environments.",
@@ -171,7 +171,7 @@ REGISTRY["C15"] = dict(
     claim=(
         "Table and constructor clauses: (a) all 148 CSS named colours (independent table in spec/) are in name_to_rgba with alpha 0xFF, `transparent` is rgba(0,0,0,0), rgba_to_name is a right inverse; "
         "(b) Color's fields are private, struct literals occur only in new_rgba/new_hsla/new, the raw constructors are called only from the reviewed set, and from_rgba/from_rgba_fn/from_hwb/from_hsla clamp every parameter "
-        "(from_hsla's alpha obligation is checked at its callers, and update_value — the root those callers rely on — clamps in its Adjust arm and returns the range-checked parameter in its Change arm); (c) compressed output writes a name only if it fits and 3-digit hex only under can_use_short_hex, which requires is_symmetrical_hex of red, green and blue together; (d) interval analysis: every hue handed to hue_to_rgb lies in [-1, 2] turns (it corrects by one turn at most), with `Number % 360` shown to be the non-negative modulo. "
+        "(from_hsla's alpha obligation is checked at its callers, and update_value — the root those callers rely on — clamps in its Adjust arm and returns the range-checked parameter in its Change arm; each reviewed caller may use only the raw constructor it was reviewed for — hex literals new_rgba, the named table new); (c) compressed output writes a name only if it fits and 3-digit hex only under can_use_short_hex, which requires is_symmetrical_hex of red, green and blue together; (d) interval analysis: every hue handed to hue_to_rgb lies in [-1, 2] turns (it corrects by one turn at most), with `Number % 360` shown to be the non-negative modulo. "
         "NOT decided: HSL/HWB round trips and the colour-function laws (numeric)."
     ),
     explanation="Clauses C15-a..c of DESIGN.md §3 on MIR/HIR facts of the current tree and spec/css_named_colors.json. NOT decided: numeric conversions, rounding at .5 boundaries, colour-function identities.",
@@ -196,7 +196,7 @@ REGISTRY["C12"] = dict(
     claim=(
         "Structural clauses: (a) Public/Limited/Prefixed member views forward get/remove/insert only under their predicate and list keys consistently; (b) @forward show/hide lists reach LimitedMapView on top of the prefixed view; "
         "(c) sass:math/meta/selector/color members equal their global aliases; (d) execute() evaluates only on a cache miss and registers the module, load_module brackets execute with the active-module set and errors on a loop; "
-        "(e) every namespaced member reference built by the parser passed assert_public; (f) load_module receives a configuration built from the rule's own `with` clause or an empty one at every call outside @forward (a plain `@use` never inherits the enclosing module's configuration); (g) the module cache / active-module set are keyed by Fs::canonicalize and StdFs::canonicalize is exactly std::fs::canonicalize (no shortcut that keeps symlinked spellings apart). NOT decided: the rest of `with` configuration semantics, diamond/emission order, namespace shadowing."
+        "(e) every namespaced member reference built by the parser passed assert_public; (f) load_module receives a configuration built from the rule's own `with` clause or an empty one at every call outside @forward (a plain `@use` never inherits the enclosing module's configuration); (g) the module cache / active-module set are keyed by Fs::canonicalize and StdFs::canonicalize is exactly std::fs::canonicalize (no shortcut that keeps symlinked spellings apart); (h) in visit_forward_rule the names exempt from remove_used_configuration are the unguarded ones (filtered) while the names kept for assert_configuration_is_empty are all of the rule's own (unfiltered). NOT decided: the rest of `with` configuration semantics, diamond/emission order, namespace shadowing."
     ),
     explanation="Clauses C12-a..e of DESIGN.md §3 on MIR facts of the current tree. NOT decided: configuration semantics, CSS emission order across modules.",
     assumptions=TRUSTED + ["spec/builtin_aliases.json transcribed from the Sass documentation"],
@@ -220,7 +220,7 @@ REGISTRY["C18"] = dict(
     claim=(
         "Shared-table clauses: (a) the StylesheetParser/BaseParser methods each front end overrides are exactly the reviewed hook sets and is_indented/is_plain_css return the fixed constants; "
         "(b) TokenLexer::next maps exactly FF, CR, CRLF to one `\\n`, consumes the LF after CR with one call and advances the byte position by 1 on exactly the paths that consumed it; (c) Identifier is only built by from_str, every Identifier built there wraps a normalised get_or_intern, scope maps are keyed by it, and the @forward prefix (a plain String matched against normalised names) is read with normalisation at every AstForwardRule construction; "
-        "(d) CssParser::parse_at_rule rejects exactly dart-sass's set of Sass-only at-rules and every listed Sass-only construct has an is_plain_css() guard leading to Err; (e) the tab/space flags of the indented syntax are re-initialised for every line peek_indentation scans. "
+        "(d) CssParser::parse_at_rule rejects exactly dart-sass's set of Sass-only at-rules and every listed Sass-only construct has an is_plain_css() guard leading to Err; (e) the tab/space flags of the indented syntax are re-initialised for every line peek_indentation scans; (f) the BOM skip sits in a parser method no front end overrides. "
         "NOT decided: that SCSS and indented inputs produce identical CSS."
     ),
     explanation="Clauses C18-a..d of DESIGN.md §3 on HIR/MIR facts of the current tree. NOT decided: behavioural equality of the front ends on concrete programs.",
